@@ -24,6 +24,9 @@ func (e *Engine) snapshot(st *State, v Val) Val {
 		if c == nil {
 			c = e.ptrCell[x.Name]
 		}
+		if c == nil && e.mergedCell != nil {
+			c = e.mergedCell[x.Name] // the stand-in object of a pointer merged from several objects
+		}
 		var content Val
 		if c != nil {
 			if cv, ok := st.cells[c]; ok {
